@@ -4,21 +4,24 @@ namespace Afkak.Producer
 open Afkak.Consts
 
 theorem pickPartition_frame (cfg : Cfg) (st : St) (t : Topic) (k : Option (List UInt8)) :
-    (pickPartition cfg st t k).1 = { st with partitioners := (pickPartition cfg st t k).1.partitioners } := by
+    (pickPartition cfg st t k).1 =
+      { st with partitioners := (pickPartition cfg st t k).1.partitioners } := by
   simp only [pickPartition, setPartitioner]
   repeat' split
   all_goals rfl
 
 theorem lookupHead_frame (cfg : Cfg) (st : St) (r : Req) :
-    (lookupHead cfg st r).1 = { st with partitioners := (lookupHead cfg st r).1.partitioners,
-                                        nextRid := (lookupHead cfg st r).1.nextRid } := by
+    (lookupHead cfg st r).1 =
+      { st with partitioners := (lookupHead cfg st r).1.partitioners,
+                nextRid := (lookupHead cfg st r).1.nextRid } := by
   simp only [lookupHead]
   repeat' split
   all_goals first | rfl | (rw [pickPartition_frame])
 
 theorem startLookups_frame (cfg : Cfg) (st : St) (rs : List Req) :
-    (startLookups cfg st rs).1 = { st with partitioners := (startLookups cfg st rs).1.partitioners,
-                                           nextRid := (startLookups cfg st rs).1.nextRid } := by
+    (startLookups cfg st rs).1 =
+      { st with partitioners := (startLookups cfg st rs).1.partitioners,
+                nextRid := (startLookups cfg st rs).1.nextRid } := by
   induction rs generalizing st with
   | nil => rfl
   | cons r rest ih =>
@@ -26,55 +29,97 @@ theorem startLookups_frame (cfg : Cfg) (st : St) (rs : List Req) :
     rw [ih, lookupHead_frame]
 
 theorem metaContinue_frame (cfg : Cfg) (st : St) (r : Req) (res : MetaRes) :
-    (metaContinue cfg st r res).1 = { st with partitioners := (metaContinue cfg st r res).1.partitioners,
-                                              attempts := (metaContinue cfg st r res).1.attempts,
-                                              nextTid := (metaContinue cfg st r res).1.nextTid,
-                                              interval := (metaContinue cfg st r res).1.interval } := by
+    (metaContinue cfg st r res).1 =
+      { st with partitioners := (metaContinue cfg st r res).1.partitioners,
+                attempts := (metaContinue cfg st r res).1.attempts,
+                nextTid := (metaContinue cfg st r res).1.nextTid,
+                interval := (metaContinue cfg st r res).1.interval } := by
   cases res <;> simp only [metaContinue]
   repeat' split
   all_goals first | rfl | (rw [pickPartition_frame])
 
 theorem sendRequests_frame (st : St) (ls : List Lookup) :
-    (sendRequests st ls).1 = { st with outstanding := (sendRequests st ls).1.outstanding,
-                                       nextRid := (sendRequests st ls).1.nextRid,
-                                       attempts := (sendRequests st ls).1.attempts,
-                                       phase := (sendRequests st ls).1.phase } := by
+    (sendRequests st ls).1 =
+      { st with outstanding := (sendRequests st ls).1.outstanding,
+                nextRid := (sendRequests st ls).1.nextRid,
+                attempts := (sendRequests st ls).1.attempts,
+                phase := (sendRequests st ls).1.phase } := by
   simp only [sendRequests]
   repeat' split
   all_goals rfl
 
 theorem checkRetry_frame (cfg : Cfg) (st : St) (b : Batch) (f : List FailedP) :
-    (checkRetry cfg st b f).1 = { st with outstanding := (checkRetry cfg st b f).1.outstanding,
-                                          nextTid := (checkRetry cfg st b f).1.nextTid,
-                                          interval := (checkRetry cfg st b f).1.interval,
-                                          tmeta := (checkRetry cfg st b f).1.tmeta,
-                                          phase := (checkRetry cfg st b f).1.phase } := by
+    (checkRetry cfg st b f).1 =
+      { st with outstanding := (checkRetry cfg st b f).1.outstanding,
+                nextTid := (checkRetry cfg st b f).1.nextTid,
+                interval := (checkRetry cfg st b f).1.interval,
+                tmeta := (checkRetry cfg st b f).1.tmeta,
+                phase := (checkRetry cfg st b f).1.phase } := by
   simp only [checkRetry]
   repeat' split
   all_goals rfl
 
 theorem handleResults_frame (cfg : Cfg) (st : St) (b : Batch) (rs : List Resp) (fs : List FailedP) :
-    (handleResults cfg st b rs fs).1 = { st with outstanding := (handleResults cfg st b rs fs).1.outstanding,
-                                          nextTid := (handleResults cfg st b rs fs).1.nextTid,
-                                          interval := (handleResults cfg st b rs fs).1.interval,
-                                          tmeta := (handleResults cfg st b rs fs).1.tmeta,
-                                          phase := (handleResults cfg st b rs fs).1.phase } := by
+    (handleResults cfg st b rs fs).1 =
+      { st with outstanding := (handleResults cfg st b rs fs).1.outstanding,
+                nextTid := (handleResults cfg st b rs fs).1.nextTid,
+                interval := (handleResults cfg st b rs fs).1.interval,
+                tmeta := (handleResults cfg st b rs fs).1.tmeta,
+                phase := (handleResults cfg st b rs fs).1.phase } := by
   simp only [handleResults]
   repeat' split
   all_goals first | rfl | (rw [checkRetry_frame])
 
 theorem deliverAll_frame (st : St) (b : Batch) (o : Outcome) :
-    (deliverAll st b o).1 = { st with outstanding := (deliverAll st b o).1.outstanding } := by
+    (deliverAll st b o).1 =
+      { st with outstanding := (deliverAll st b o).1.outstanding } := by
   simp only [deliverAll]
 
 theorem handleSendResponse_frame (cfg : Cfg) (st : St) (b : Batch) (r : ProdRes) :
-    (handleSendResponse cfg st b r).1 = { st with outstanding := (handleSendResponse cfg st b r).1.outstanding,
-                                          nextTid := (handleSendResponse cfg st b r).1.nextTid,
-                                          interval := (handleSendResponse cfg st b r).1.interval,
-                                          tmeta := (handleSendResponse cfg st b r).1.tmeta,
-                                          phase := (handleSendResponse cfg st b r).1.phase } := by
+    (handleSendResponse cfg st b r).1 =
+      { st with outstanding := (handleSendResponse cfg st b r).1.outstanding,
+                nextTid := (handleSendResponse cfg st b r).1.nextTid,
+                interval := (handleSendResponse cfg st b r).1.interval,
+                tmeta := (handleSendResponse cfg st b r).1.tmeta,
+                phase := (handleSendResponse cfg st b r).1.phase } := by
   simp only [handleSendResponse]
   repeat' split
   all_goals first | rfl | (rw [handleResults_frame]) | (rw [deliverAll_frame])
+
+end Afkak.Producer
+
+namespace Afkak.Producer
+open Afkak.Consts
+
+/-- what `dispatch` and the completion hook may touch: everything except
+    `looper stopping tmeta nextSid nextTid zombies` -/
+def CtlSame (a b : St) : Prop :=
+  b.looper = a.looper ∧ b.stopping = a.stopping ∧ b.tmeta = a.tmeta ∧ b.nextSid = a.nextSid ∧
+  b.nextTid = a.nextTid ∧ b.zombies = a.zombies
+
+theorem CtlSame.rfl' (a : St) : CtlSame a a := ⟨rfl, rfl, rfl, rfl, rfl, rfl⟩
+theorem CtlSame.trans {a b c : St} (h1 : CtlSame a b) (h2 : CtlSame b c) : CtlSame a c := by
+  unfold CtlSame at *; grind
+
+theorem dispatch_ctl (cfg : Cfg) (st : St) : CtlSame st (dispatch cfg st).1 := by
+  simp only [dispatch, resetBatch]
+  repeat' split
+  all_goals (first
+    | (rw [sendRequests_frame, startLookups_frame]; exact ⟨rfl, rfl, rfl, rfl, rfl, rfl⟩)
+    | (rw [startLookups_frame]; exact ⟨rfl, rfl, rfl, rfl, rfl, rfl⟩))
+
+theorem sendBatch_ctl (cfg : Cfg) (st : St) : CtlSame st (sendBatch cfg st).1 := by
+  simp only [sendBatch]; split
+  · exact dispatch_ctl cfg st
+  · exact CtlSame.rfl' st
+
+theorem checkSendBatch_ctl (cfg : Cfg) (st : St) : CtlSame st (checkSendBatch cfg st).1 := by
+  simp only [checkSendBatch]; split
+  · exact sendBatch_ctl cfg st
+  · exact CtlSame.rfl' st
+
+theorem completeBatch_ctl (cfg : Cfg) (st : St) : CtlSame st (completeBatch cfg st).1 := by
+  simp only [completeBatch]
+  exact CtlSame.trans (b := resetBatch cfg st) ⟨rfl, rfl, rfl, rfl, rfl, rfl⟩ (checkSendBatch_ctl cfg _)
 
 end Afkak.Producer
